@@ -180,7 +180,18 @@ def dead_nodes(children):
     return res
 
 
-def findings_of(cfg, out, states):
+def rare_nodes(children, parent, limit):
+    """Sub-expressions evaluated at most `limit` times although their parent was evaluated more often (report only)."""
+    res = []
+    for n in children:
+        if 0 < n.count <= limit and parent > 10 * n.count:
+            res.append(n)
+        else:
+            res += rare_nodes(n.children, n.count, limit)
+    return res
+
+
+def findings_of(cfg, out, states, rare=0):
     """-> list of dict(cfg, kind, where, expr, detail)."""
     heads = parse_coverage(out)
     if heads is None:
@@ -200,6 +211,10 @@ def findings_of(cfg, out, states):
                 continue
             for n in dead_nodes(h.children):
                 f.append({'cfg': cfg, 'kind': 'law', 'where': h.name, 'expr': source(n.loc), 'detail': '%s:%d:%d never evaluated' % (n.loc[4], n.loc[0], n.loc[1])})
+            if rare:
+                for n in rare_nodes(h.children, max([c.count for c in h.children] + [0]), rare):
+                    f.append({'cfg': cfg, 'kind': 'rare', 'where': h.name, 'expr': source(n.loc),
+                              'detail': '%s:%d:%d evaluated only %d times' % (n.loc[4], n.loc[0], n.loc[1], n.count)})
     if states < MIN_STATES:
         f.append({'cfg': cfg, 'kind': 'tiny', 'where': '', 'expr': '', 'detail': 'only %d distinct states' % states})
     # one finding per (kind, where, expr): the same source expression may be reached on several paths
@@ -232,13 +247,59 @@ def allowed(x, allow):
     return None
 
 
-def run_tlc(module, cfg, workers, timeout, root, heap='8g'):
+_OVERRIDE = re.compile(r'public static Value (\w+)\(')
+_DEF = re.compile(r'^(\w+)\(([^)]*)\)\s*==')
+
+
+def thin_rat(text, overridden):
+    """Rat.tla with the TLA+ bodies of the Java-overridden operators replaced by a constant.
+
+    TLC never evaluates those bodies (the class Rat on the classpath does), but its coverage cost model clones the
+    body of an operator at every call site: with the real bodies (AddDef -> NormDef -> GCD ...) the cost model of a
+    numeric spec has 10^7 nodes, needs > 8 GB and slows TLC down 10-50 fold.  Positions in all other modules are
+    unchanged.  run_tlc() insists that TLC reports every one of these overrides as loaded."""
+    out, skip = [], False
+    for ln in text.split('\n'):
+        m = _DEF.match(ln)
+        if m:
+            skip = m.group(1) in overridden
+            if skip:
+                out.append('%s(%s) == "0"' % (m.group(1), m.group(2)))
+                continue
+        elif ln[:1] not in (' ', '\t', ''):
+            skip = False
+            r = re.match(r'^RECURSIVE (\w+)\(', ln)
+            if r and r.group(1) in overridden:
+                continue
+        if not skip:
+            out.append(ln)
+    return '\n'.join(out)
+
+
+def prepare_spec_dir(root):
+    """Copy of spec/ (modules and configurations) with the thin Rat.tla; returns (dir, names of the overridden operators)."""
+    d = os.path.join(root, 'spec')
+    os.makedirs(d, exist_ok=True)
+    for f in os.listdir(SPEC):
+        if f.endswith('.tla') or f.endswith('.cfg'):
+            shutil.copy(os.path.join(SPEC, f), os.path.join(d, f))
+    with open(os.path.join(SPEC, 'java', 'Rat.java')) as f:
+        overridden = set(_OVERRIDE.findall(f.read()))
+    with open(os.path.join(SPEC, 'Rat.tla')) as f:
+        text = f.read()
+    with open(os.path.join(d, 'Rat.tla'), 'w') as f:
+        f.write(thin_rat(text, overridden))
+    defined = {m.group(1) for m in (_DEF.match(ln) for ln in text.split('\n')) if m}
+    return d, sorted(overridden & defined)
+
+
+def run_tlc(module, cfg, workers, timeout, root, heap='8g', cwd=SPEC, must_load=()):
     """Same command line as harness.common.run_mc -> tlc (8g heap) plus -coverage 1; own process group so that a timeout kills the JVM."""
     metadir = tempfile.mkdtemp(prefix='meta-', dir=root)
     cmd = ['java', '-XX:+UseParallelGC', '-Xmx' + heap, '-Xss64m', '-cp', TLA_CP + ':' + CLASSES, 'tlc2.TLC', '-metadir', metadir,
            '-noGenerateSpecTE', '-workers', str(workers), '-coverage', '1', '-config', cfg, module + '.tla']
     t0 = time.time()
-    p = subprocess.Popen(cmd, cwd=SPEC, stdout=subprocess.PIPE, stderr=subprocess.STDOUT, start_new_session=True)
+    p = subprocess.Popen(cmd, cwd=cwd, stdout=subprocess.PIPE, stderr=subprocess.STDOUT, start_new_session=True)
     try:
         out, _ = p.communicate(timeout=timeout)
         timed_out = False
@@ -251,6 +312,10 @@ def run_tlc(module, cfg, workers, timeout, root, heap='8g'):
     with open(os.path.join(root, cfg + '.out'), 'w') as f:
         f.write(out)
     ms = _STATES.findall(out)
+    missing = [o for o in must_load if 'Loading %s operator override' % o not in out] if 'Starting...' in out else []
+    if missing:
+        out = 'Error: vacuity: the Java overrides %s were not loaded: the thin Rat.tla must not be used\n' % missing
+        ms = []
     return {'module': module, 'cfg': cfg, 'out': out, 'wall': time.time() - t0, 'timed_out': timed_out, 'rc': p.returncode,
             'generated': int(ms[-1][0]) if ms else 0, 'states': int(ms[-1][1]) if ms else 0,
             'ok': 'Model checking completed. No error has been found.' in out,
@@ -268,7 +333,7 @@ def _reread(module, cfg, root):
             'violated': ('is violated' in out or 'Deadlock reached' in out or 'properties were violated' in out)}
 
 
-def audit(tier='quick', only=None, jobs=4, workers=4, timeout=900, keep=None, report=False, out=sys.stdout, reread=None):
+def audit(tier='quick', only=None, jobs=4, workers=4, timeout=900, keep=None, report=False, out=sys.stdout, reread=None, real_rat=False):
     if not os.path.exists(os.path.join(CLASSES, 'Rat.class')):
         print('build/classes/Rat.class missing: run ./setup.sh', file=out)
         return 2
@@ -281,9 +346,10 @@ def audit(tier='quick', only=None, jobs=4, workers=4, timeout=900, keep=None, re
     else:
         root = keep or tempfile.mkdtemp(prefix='vac-', dir='/var/tmp')
         os.makedirs(root, exist_ok=True)
+        cwd, must = (SPEC, ()) if real_rat else prepare_spec_dir(root)
         try:
             with ThreadPoolExecutor(max_workers=jobs) as ex:
-                futs = [(c, ex.submit(run_tlc, c[0], c[1], 2 if c[3] == 'fail' else workers, timeout, root)) for c in sel]
+                futs = [(c, ex.submit(run_tlc, c[0], c[1], 2 if c[3] == 'fail' else workers, timeout, root, '8g', cwd, must)) for c in sel]
                 res = [(c, f.result()) for c, f in futs]
         finally:
             if not keep:
@@ -305,13 +371,14 @@ def audit(tier='quick', only=None, jobs=4, workers=4, timeout=900, keep=None, re
             else:
                 machinery.append('%s: TLC failed (rc %s)\n%s' % (cfg, r['rc'], r['out'][-1500:]))
             continue
-        fs = findings_of(cfg, r['out'], r['states'])
+        fs = findings_of(cfg, r['out'], r['states'], rare=3 if report else 0)
         if fs is None:
             machinery.append('%s: no coverage statistics in the TLC output' % cfg)
             continue
-        new = [x for x in fs if not allowed(x, allow)]
+        new = [x for x in fs if x['kind'] != 'rare' and not allowed(x, allow)]
         bad += new
-        rows.append((cfg, r['states'], r['wall'], '%d dead (%d allowed)' % (len(fs), len(fs) - len(new))))
+        nd = len([x for x in fs if x['kind'] != 'rare'])
+        rows.append((cfg, r['states'], r['wall'], '%d dead (%d allowed)' % (nd, nd - len(new))))
         if report:
             for x in fs:
                 e = allowed(x, allow)
@@ -351,12 +418,13 @@ def main(argv=None):
     ap.add_argument('--timeout', type=int, default=900)
     ap.add_argument('--keep', help='directory (under /var/tmp) to keep the raw TLC outputs in')
     ap.add_argument('--from', dest='reread', help='judge the outputs kept in this directory instead of running TLC')
+    ap.add_argument('--real-rat', action='store_true', help='run in spec/ itself with the full Rat.tla (slow, memory hungry: see thin_rat)')
     ap.add_argument('--report', action='store_true', help='print every dead expression, allowed or not')
     ap.add_argument('--list-unknown', action='store_true', help='list spec/*.cfg files this table does not know')
     a = ap.parse_args(argv)
     if a.list_unknown:
         return list_unknown()
-    return audit(a.tier, a.only, a.jobs, a.workers, a.timeout, a.keep, a.report, reread=a.reread)
+    return audit(a.tier, a.only, a.jobs, a.workers, a.timeout, a.keep, a.report, reread=a.reread, real_rat=a.real_rat)
 
 
 if __name__ == '__main__':
